@@ -494,10 +494,24 @@ impl UndoOperation for AddFloatingLayer {
     }
 }
 
+/// `Buffer::set_size` copies the new size into the SAUCE record as well. The size the record held before the edit
+/// is part of the document (it may differ from the buffer size), so the records that resize the buffer keep it.
+pub(crate) fn sauce_size(buffer: &crate::Buffer) -> Option<Size> {
+    buffer.get_sauce().as_ref().map(|sauce| sauce.buffer_size)
+}
+
+fn restore_sauce_size(buffer: &mut crate::Buffer, size: Option<Size>) {
+    if let (Some(size), Some(mut sauce)) = (size, buffer.get_sauce().clone()) {
+        sauce.buffer_size = size;
+        buffer.set_sauce(Some(sauce), false);
+    }
+}
+
 #[derive(Default)]
 pub struct ResizeBuffer {
     orig_size: Size,
     size: Size,
+    orig_sauce_size: Option<Size>,
 }
 
 impl ResizeBuffer {
@@ -505,6 +519,7 @@ impl ResizeBuffer {
         Self {
             orig_size: orig_size.into(),
             size: size.into(),
+            orig_sauce_size: None,
         }
     }
 }
@@ -516,11 +531,13 @@ impl UndoOperation for ResizeBuffer {
 
     fn undo(&mut self, edit_state: &mut EditState) -> EngineResult<()> {
         edit_state.get_buffer_mut().set_size(self.orig_size);
+        restore_sauce_size(edit_state.get_buffer_mut(), self.orig_sauce_size);
         edit_state.set_mask_size();
         Ok(())
     }
 
     fn redo(&mut self, edit_state: &mut EditState) -> EngineResult<()> {
+        self.orig_sauce_size = sauce_size(edit_state.get_buffer());
         edit_state.get_buffer_mut().set_size(self.size);
         edit_state.set_mask_size();
         Ok(())
@@ -598,14 +615,16 @@ pub struct Crop {
     orig_size: Size,
     size: Size,
     layers: Vec<Layer>,
+    orig_sauce_size: Option<Size>,
 }
 
 impl Crop {
-    pub fn new(orig_size: impl Into<Size>, size: impl Into<Size>, layers: Vec<Layer>) -> Self {
+    pub fn new(orig_size: impl Into<Size>, size: impl Into<Size>, layers: Vec<Layer>, orig_sauce_size: Option<Size>) -> Self {
         Self {
             orig_size: orig_size.into(),
             size: size.into(),
             layers,
+            orig_sauce_size,
         }
     }
 }
@@ -617,12 +636,14 @@ impl UndoOperation for Crop {
 
     fn undo(&mut self, edit_state: &mut EditState) -> EngineResult<()> {
         edit_state.get_buffer_mut().set_size(self.orig_size);
+        restore_sauce_size(edit_state.get_buffer_mut(), self.orig_sauce_size);
         edit_state.set_mask_size();
         mem::swap(&mut edit_state.get_buffer_mut().layers, &mut self.layers);
         Ok(())
     }
 
     fn redo(&mut self, edit_state: &mut EditState) -> EngineResult<()> {
+        self.orig_sauce_size = sauce_size(edit_state.get_buffer());
         edit_state.get_buffer_mut().set_size(self.size);
         edit_state.set_mask_size();
         mem::swap(&mut edit_state.get_buffer_mut().layers, &mut self.layers);
